@@ -727,6 +727,41 @@ def ev_fold_reuse():
     return outs
 
 
+def m_seqops(opset):
+    """Ops whose partial evaluator exists only from some opset on (Dropout 12, ConcatFromSequence 13, SplitToSequence 18):
+    a long-lived pass object that remembers which evaluators apply treats an opset-17 model like the opset-18 model it
+    saw before (seeded C14h)."""
+    if opset >= 12:
+        drop = helper.make_node("Dropout", ["e"], ["d"], name="drop")
+    else:
+        drop = helper.make_node("Dropout", ["e"], ["d"], name="drop", ratio=0.25)
+    nodes = [helper.make_node("SplitToSequence", ["x", "one"], ["s"], name="split", axis=0),
+             helper.make_node("SequenceAt", ["s", "one"], ["e"], name="at"),
+             drop,
+             helper.make_node("SequenceConstruct", ["d", "e"], ["q"], name="mk"),
+             helper.make_node("ConcatFromSequence", ["q"], ["c"], name="cat", axis=0),
+             helper.make_node("Abs", ["c"], ["y"], name="abs")]
+    return _model(nodes, [_vi("x", [3, 2])], [_vi("y", [2, 2])], [_i64("one", 1)], opset=opset)
+
+
+def _ev_pass_seq(opset):
+    m = ir.serde.deserialize_model(m_seqops(opset))
+    res = FOLD(m)
+    return {"model": _ser_plain(ir.serde.serialize_model(res.model)), "modified": repr(bool(res.modified)).encode()}
+
+
+def ev_pass_seq_o11():
+    return _ev_pass_seq(11)
+
+
+def ev_pass_seq_o17():
+    return _ev_pass_seq(17)
+
+
+def ev_pass_seq_o18():
+    return _ev_pass_seq(18)
+
+
 def ev_convert():
     outs = {}
     p = m_convert("bilinear")
@@ -865,7 +900,8 @@ EVENTS = {
     "opt_reshape2": ev_opt_reshape2, "opt_reshape_az": ev_opt_reshape_az, "opt_fold_o11": ev_opt_fold_o11, "opt_fold_o18": ev_opt_fold_o18, "opt_padconv": ev_opt_padconv, "opt_matreshape": ev_opt_matreshape,
     "opt_nearmiss": ev_opt_nearmiss, "opt_mixed": ev_opt_mixed,
     "rw_checkraises": ev_rw_checkraises, "rw_patternraises": ev_rw_patternraises, "rw_alt": ev_rw_alt,
-    "rw_rms": ev_rw_rms, "fold_reuse": ev_fold_reuse, "convert": ev_convert, "pass_plain": ev_pass_plain,
+    "rw_rms": ev_rw_rms, "fold_reuse": ev_fold_reuse, "pass_seq_o11": ev_pass_seq_o11, "pass_seq_o17": ev_pass_seq_o17,
+    "pass_seq_o18": ev_pass_seq_o18, "convert": ev_convert, "pass_plain": ev_pass_plain,
     "eager_raise": ev_eager_raise, "use_persist": ev_use_persist, "proto_repeat": ev_proto_repeat,
     "glob_mut": ev_glob_mut, "use_g": ev_use_g,
 }
